@@ -167,7 +167,7 @@ func init() {
 		Title: "Shutdown always completes: no hang, no panic, channels closed",
 		Explain: "Decides structural necessary conditions of clean shutdown: WaitGroup Add/Done pairing of the fan-out helpers (C12.pairing; the pipeline groups are covered by C01/C03/C07 rules that this property shares); a frozen table of close() sites per channel field with their once/defer attributes, so that a second closer or a closer outside its sync.Once is reported (C12.close-sites); the close/wait hand-shakes of client, broker, offset manager, heartbeat, partition consumer and subscription manager (C12.handshakes); every blocking select of the long-running loops has a case on its component's shutdown channel (C12.dying); for channels closed by their only sender, the sender table (C12.who-sends); the closure handed to a sync.Once in a Close path has no return that skips teardown its normal exit performs (C12.once-complete); every subscription of a broker worker that gives up is handed back to its dispatcher exactly once, dying ones included — the hand-over is what lets a closing partition consumer finish (C03.redispatch, shared). " +
 			"NOT covered: absence of deadlock in general, send/close races that need a happens-before argument (consumerGroup.errors, partitionConsumer.errors/trigger).",
-		Rules: []func(*Ctx){c12Pairing, c12CloseSites, c12OnceComplete, c12LockReleased, c12Refcount, c12Handshakes, c12Dying, c12WhoSends, c12SendVsCloseLock, c01Shutdown, c01BrokerShutdown, c01Markers, c03Redispatch},
+		Rules: []func(*Ctx){c12Pairing, c12CloseSites, c12OnceComplete, c12LockReleased, c12Refcount, c12Handshakes, c12Dying, c12WhoSends, c12SendVsCloseLock, c01Shutdown, c01BrokerShutdown, c01Markers, c03Redispatch, c03ErrLost},
 	})
 }
 
@@ -560,6 +560,25 @@ func c12Refcount(c *Ctx) {
 			}
 			c.Check(!esc && it.IsZero(), rule, fn, "unref-then-forget", u.Instr(), "after giving the reference back child.broker is set to nil before the re-dispatch",
 				"inside the dispatch loop a reference is given back while child.broker keeps pointing at the worker: when the re-dispatch fails, the next round (or the exit path) gives the same reference back again — the count reaches zero under a sibling partition consumer, the worker exits and the sibling's Close never completes", pth2)
+		}
+	}
+	// anywhere else: whoever gives child.broker's reference back replaces the pointer before returning, on every path
+	// (a failure return that leaves child.broker pointing at the released worker makes the next attempt release it again)
+	for _, f := range p.Fns {
+		if rootOf(f).Pkg != p.Sarama || f == fn {
+			continue
+		}
+		for _, u := range Info(f).Find(unref) {
+			if u.Instr() == nil || u.Instr().Parent() != f {
+				continue
+			}
+			a := callArgs(u)
+			if len(a) != 2 || !brokerF(a[1]) {
+				continue
+			}
+			esc, pth := WholeFn(f).From(u.After()).Escape(StoreTo(nil, "partitionConsumer.broker"))
+			c.Check(!esc, rule, f, "unref-then-replace", u.Instr(), "after giving the reference back child.broker is replaced on every path to the return",
+				p.Name(f)+" gives child.broker's reference back and can return (on a failure path) with child.broker still pointing at the released worker: the next attempt gives the same reference back again — the count reaches zero under a sibling partition consumer, the worker exits and the sibling's Close never completes", pth)
 		}
 	}
 	// who sets child.broker
